@@ -189,6 +189,10 @@ func DataURI(dataURI []byte) ([]byte, []byte, error) {
 						}
 						data = decoded[:n]
 					} else {
+						if bytes.IndexByte(data, '+') != -1 {
+							// a plus sign stands for itself in a data URI, it is a space in query strings only
+							data = bytes.ReplaceAll(data, []byte("+"), []byte("%2B"))
+						}
 						data = DecodeURL(data)
 					}
 					return mediatype, data, nil
